@@ -28,6 +28,7 @@ package parser
 
 import (
 	nurl "net/url"
+	"sort"
 	"strings"
 
 	"github.com/markusmobius/go-domdistiller/internal/pagination/info"
@@ -181,7 +182,16 @@ func newDetectionStateFromMonotonicNumbers(monotonicNumbers []*info.PageInfo, is
 
 	// Determine which URL page pattern is valid with a valid, and the best, PageParamInfo.
 	state := &DetectionState{}
-	for strPattern, candidate := range pageCandidates {
+	// Visit the candidates in a fixed order: when two patterns are equally good the
+	// one seen first wins, and the iteration order of a map is random.
+	strPatterns := make([]string, 0, len(pageCandidates))
+	for strPattern := range pageCandidates {
+		strPatterns = append(strPatterns, strPattern)
+	}
+	sort.Strings(strPatterns)
+
+	for _, strPattern := range strPatterns {
+		candidate := pageCandidates[strPattern]
 		if strPattern == acceptedPagePattern || len(candidate.links) > MaxPagingDocs ||
 			!candidate.pagePattern.IsValidFor(parsedDocURL) {
 			continue
